@@ -196,6 +196,151 @@ example :
     (ops.filter fun o => !o.isTouch) = (ops'.filter fun o => !o.isTouch) ∧ (readOut (run ops') 1).1 = some 12 := by
   decide
 
+/-! ## every registration is an entry of its own
+
+Function objects are not a separate notion of the model: an implementation IS its kind and body, so "the same function
+registered once more" is an `add` with the `wrapper` flag and `Body` of an earlier one.  The code creates a new
+`HookFunction` (= the identity `id`) for every `add_function` call and `remove_function` removes that object from the
+stores of one class, so registrations of one function never interact; the correspondence harness registers the SAME
+python function object in these cases (stream `same`). -/
+
+/-- base 0 (hook), subclass 1; the function `ret 1` (registration 0) and another one (registration 1) on the base -/
+def twoOnBase : List Op :=
+  [.defClass 0 [0] true, .defClass 1 [1, 0] false, .add 0 .normal false (.ret (some 1)),
+    .add 0 .normal false (.ret (some 2)), .readFns 1]
+
+/-- the log entry a successful registration `C.h.add_function(f, …)` after the history `ops` creates -/
+def newReg (ops : List Op) (c : Cls) (t : Tier) (w : Bool) (b : Body) : Reg := ⟨⟨(arun ops).next, w, b⟩, c, t⟩
+
+/-- **Every registration is appended to the log** - whatever is registered already, in particular when the very same
+implementation (same function: same kind and body) is live on this class, on a base class or on a subclass, in the
+same tier.  The only condition is the one of the code: the hook exists for the class (else `AttributeError`). -/
+theorem add_appends (ops : List Op) (c : Cls) (t : Tier) (w : Bool) (b : Body) (hv : avisible (arun ops) c = true) :
+    liveLog (ops ++ [.add c t w b]) = liveLog ops ++ [newReg ops c t w b] := by
+  rw [liveLog_append]
+  simp only [List.foldl_cons, List.foldl_nil, astep, hv, if_true, liveLog, newReg]
+
+-- the function of registration 0 once more on the same class: a third entry, consulted first
+example : avisible (arun twoOnBase) 0 = true ∧ newReg twoOnBase 0 .normal false (.ret (some 1)) = ⟨⟨2, false, .ret (some 1)⟩, 0, .normal⟩ ∧
+    (⟨⟨0, false, .ret (some 1)⟩, 0, .normal⟩ : Reg) ∈ liveLog twoOnBase ∧
+    (implOrder (run (twoOnBase ++ [.add 0 .normal false (.ret (some 1))])) 0).map (·.id) = [2, 1, 0] ∧
+    (readOut (run (twoOnBase ++ [.add 0 .normal false (.ret (some 1))])) 0).1 = some 1 := by decide
+
+/-- **Every registration counts, and comes first among its equals.**  After a registration through a class `c` on
+which the hook exists, the new implementation is in the chain of `c` and of every subclass `k`, and it is consulted
+before every registration `r` that was live already with the same kind and tier on `c` itself (latest first) or on a
+class that comes later in `k.__mro__` (most derived first) - no matter whether `r` is a registration of the very same
+function. -/
+theorem registration_always_counts (ops : List Op) (c : Cls) (t : Tier) (w : Bool) (b : Body) (k : Cls)
+    (hv : avisible (arun ops) c = true) (hk : c ∈ (run ops).mro k) :
+    (newReg ops c t w b).hf ∈ implOrder (run (ops ++ [.add c t w b])) k ∧
+    ∀ r ∈ liveLog ops, r.cls ∈ (run ops).mro k → r.hf.wrapper = w → r.tier = t →
+      (r.cls = c ∨ ((run ops).mro k).idxOf c < ((run ops).mro k).idxOf r.cls) →
+      [(newReg ops c t w b).hf, r.hf].Sublist (implOrder (run (ops ++ [.add c t w b])) k) := by
+  have hlog := add_appends ops c t w b hv
+  have hm := run_add_mro ops c t w b
+  have hn : newReg ops c t w b ∈ liveLog (ops ++ [.add c t w b]) := by rw [hlog]; simp
+  refine ⟨(scope_exact _ k _).2 ⟨_, hn, rfl, by rw [hm]; exact hk⟩, ?_⟩
+  intro r hr hrk hw ht hpos
+  have hr' : r ∈ liveLog (ops ++ [.add c t w b]) := by rw [hlog]; exact List.mem_append_left _ hr
+  have hlt : r.hf.id < (arun ops).next := (rel_run ops).ids_lt r hr
+  refine consulted_in_priority_order _ k _ r hn hr' (by rw [hm]; exact hk) (by rw [hm]; exact hrk) ?_
+  rw [hm]
+  refine Or.inr ⟨by simp [Reg.rank, newReg, hw, ht], ?_⟩
+  rcases hpos with h | h
+  · exact Or.inr ⟨h.symm, hlt⟩
+  · exact Or.inl h
+
+-- the hypotheses are satisfiable with `r` a registration of the very same function: `ret 1` is live on the base 0
+-- (registration 0) and is registered on the subclass 1: there it comes first (most derived first), the base is unaffected
+example :
+    let r : Reg := ⟨⟨0, false, .ret (some 1)⟩, 0, .normal⟩
+    avisible (arun twoOnBase) 1 = true ∧ 1 ∈ (run twoOnBase).mro 1 ∧ r ∈ liveLog twoOnBase ∧ r.cls ∈ (run twoOnBase).mro 1 ∧
+      ((run twoOnBase).mro 1).idxOf 1 < ((run twoOnBase).mro 1).idxOf r.cls ∧
+      (implOrder (run (twoOnBase ++ [.add 1 .normal false (.ret (some 1))])) 1).map (·.id) = [2, 1, 0] ∧
+      (readOut (run (twoOnBase ++ [.add 1 .normal false (.ret (some 1))])) 1).1 = some 1 ∧
+      (implOrder (run (twoOnBase ++ [.add 1 .normal false (.ret (some 1))])) 0).map (·.id) = [1, 0] := by decide
+
+/-- **Removing one registration leaves every other one** - in particular the other registrations of the same function
+(`remove_function` takes the `HookFunction` object = one registration, through its owner). -/
+theorem remove_only_that_registration (ops : List Op) (c : Cls) (id : Nat) (r : Reg) (hr : r ∈ liveLog ops)
+    (hne : r.hf.id ≠ id ∨ r.cls ≠ c) (k : Cls) (hk : r.cls ∈ (run ops).mro k) :
+    r ∈ liveLog (ops ++ [.remove c id]) ∧ r.hf ∈ implOrder (run (ops ++ [.remove c id])) k := by
+  have h1 : r ∈ liveLog (ops ++ [.remove c id]) := by
+    simp only [liveLog_append, List.foldl_cons, List.foldl_nil, astep, List.mem_filter]
+    refine ⟨hr, ?_⟩
+    rcases hne with h | h <;> simp [h]
+  have hm := run_remove_mro ops c id
+  exact ⟨h1, (scope_exact _ k _).2 ⟨r, h1, rfl, by rw [hm]; exact hk⟩⟩
+
+-- `ret 1` registered on base (0) and subclass (2); removing the registration of the BASE leaves the one of the subclass,
+-- removing the one of the subclass leaves the one of the base; a wrapper function registered twice is applied twice
+example :
+    let ops := twoOnBase ++ [.add 1 .normal false (.ret (some 1))]
+    (⟨⟨2, false, .ret (some 1)⟩, 1, .normal⟩ : Reg) ∈ liveLog ops ∧
+    (implOrder (run (ops ++ [.remove 0 0])) 1).map (·.id) = [2, 1] ∧
+    (implOrder (run (ops ++ [.remove 1 2])) 1).map (·.id) = [1, 0] ∧
+    (implOrder (run (ops ++ [.remove 1 2])) 0).map (·.id) = [1, 0] := by decide
+
+example :
+    (readOut (run [.defClass 0 [0] true, .defClass 1 [1, 0] false, .add 0 .normal true (.wrap 3 none),
+      .add 0 .last false (.ret (some 4)), .add 1 .normal true (.wrap 3 none)]) 1).1 = some 433 := by decide
+
+/-- **A temporary registration leaves no trace** (`with C.h(f): …` - the block only reads / accesses): afterwards the
+log of live registrations, hence the chain, value and invocation trace of every class, are those of before - also when
+`f` is registered elsewhere (then THAT registration stays). -/
+theorem temporary_registration_restores (ops mid : List Op) (c : Cls) (t : Tier) (w : Bool) (b : Body)
+    (hmid : ∀ o ∈ mid, o.isTouch = true) (k : Cls) :
+    let ops' := ops ++ .add c t w b :: (mid ++ [.remove c (arun ops).next])
+    liveLog ops' = liveLog ops ∧ implOrder (run ops') k = implOrder (run ops) k ∧
+      readOut (run ops') k = readOut (run ops) k := by
+  intro ops'
+  have hids := (rel_run ops).ids_lt
+  have hfil : ∀ l : List Reg, (∀ r ∈ l, r.hf.id < (arun ops).next) →
+      l.filter (fun r => !(r.cls == c && r.hf.id == (arun ops).next)) = l := by
+    intro l hl
+    refine List.filter_eq_self.2 fun r hr => ?_
+    have := hl r hr
+    have : r.hf.id ≠ (arun ops).next := by omega
+    simp [this]
+  have hmro : (arun ops').mro = (arun ops).mro := by
+    simp only [ops', arun, List.foldl_append, List.foldl_cons, List.foldl_nil]
+    by_cases hv : avisible (List.foldl astep ainit ops) c = true
+    · simp only [astep, hv, if_true]; rw [afoldl_touch mid hmid]
+    · simp only [astep, hv]; rw [afoldl_touch mid hmid]; rfl
+  have hlog : liveLog ops' = liveLog ops := by
+    simp only [ops', liveLog, arun, List.foldl_append, List.foldl_cons, List.foldl_nil]
+    by_cases hv : avisible (List.foldl astep ainit ops) c = true
+    · simp only [astep, hv, if_true]
+      rw [afoldl_touch mid hmid]
+      simp only [List.filter_append, List.filter_cons, List.filter_nil]
+      have h := hfil _ hids
+      simp only [arun] at h
+      rw [h]
+      simp
+    · simp only [astep, hv]
+      rw [afoldl_touch mid hmid]
+      have h := hfil _ hids
+      simp only [arun] at h
+      exact h
+  have ho : implOrder (run ops') = implOrder (run ops) := by
+    funext j
+    rw [(rel_run ops').implOrder_eq, (rel_run ops).implOrder_eq]
+    have := hlog
+    simp only [liveLog] at this
+    rw [this, hmro]
+  exact ⟨hlog, congrFun ho k, by simp only [readOut, ho]⟩
+
+-- `with K1.h(f): K1().h; K0.h.functions` where `f` is registered on the base class K0 already: inside the block the
+-- subclass consults its own registration first, afterwards everything is as before - the base keeps its registration
+example :
+    let mid := [Op.read 1, .readFns 0]
+    (∀ o ∈ mid, o.isTouch = true) ∧ (arun twoOnBase).next = 2 ∧
+    (implOrder (run (twoOnBase ++ .add 1 .normal false (.ret (some 1)) :: mid)) 1).map (·.id) = [2, 1, 0] ∧
+    (implOrder (run (twoOnBase ++ .add 1 .normal false (.ret (some 1)) :: (mid ++ [.remove 1 2]))) 1).map (·.id) = [1, 0] ∧
+    (readOut (run (twoOnBase ++ .add 1 .normal false (.ret (some 1)) :: (mid ++ [.remove 1 2]))) 0).1 = some 2 := by
+  decide
+
 /-! ## evaluation -/
 
 /-- hypotheses of the evaluation theorems for a read on a fresh object of class `c` after the history `ops`:
